@@ -589,3 +589,54 @@ def fault_scenarios(shapes, L, seed):
                 if n > 0 and k <= nl:
                     others.append(Scenario(sh, base + [f"clonefuse {k}", f"refs r0 to_owned {n - 1}"] + AFTER, "to_owned-fault"))
     return retain, others
+
+
+# ------------------------------------------------------------------ desynchronised containers (C19)
+
+def desync_scenarios(shapes, L, thin=False):
+    """containers of length <= L desynchronised by growing, shrinking or clearing any one leaf array (leaves of
+    nested containers included) x every safe method x every index value; one scenario per (desync, method group)
+    so that an abort (debug builds) only loses one group"""
+    out = []
+    for sh in shapes:
+        nl = NLEAVES[sh]
+        cl = sh not in NOCLONE
+        for n in range(L + 1):
+            for leaf in range(nl):
+                for what in ("pop", "push", "clear"):
+                    if what in ("pop", "clear") and n == 0: continue
+                    base = [setup(n), f"desync r0 {leaf} {what}"]
+                    groups = []
+                    idx = []
+                    for acc in ("get", "index"):
+                        for kind, mode in KIND_MODES:
+                            for a in range(n + 2):
+                                idx.append(f"{acc} r0 {kind} {mode} pos {a} 0")
+                                for b in range(a, n + 2):
+                                    idx.append(f"{acc} r0 {kind} {mode} range {a} {b}")
+                            idx.append(f"{acc} r0 {kind} {mode} full 0 0")
+                            idx.append(f"{acc} r0 {kind} {mode} rangefrom 0 0")
+                            idx.append(f"{acc} r0 {kind} {mode} toincl 0 {n}")
+                    # every accessor line is its own scenario: an out-of-bounds unchecked access aborts debug builds
+                    if thin: idx = idx[(n + leaf) % 4::4]
+                    for l in idx: groups.append([l])
+                    groups.append(["len r0", "is_empty r0", "capacity r0"])
+                    for i in range(n + 2):
+                        groups.append([f"view r0 shared as_slice split_at:{i}:1"]); groups.append([f"view r0 mut as_mut_slice split_at:{i}:0"])
+                        groups.append([f"view r0 shared as_slice get:{i}"]); groups.append([f"view r0 shared slice:0:{i}"])
+                        groups.append([f"remove r0 {i}"]); groups.append([f"swap_remove r0 {i}"]); groups.append([f"insert r0 {i} 25"])
+                        groups.append([f"replace r0 {i} 26"]); groups.append([f"truncate r0 {i}"]); groups.append([f"split_off r0 {i} r1"])
+                        groups.append([f"swap r0 0 {i}"]); groups.append([f"refreplace r0 {i} 27"]); groups.append([f"tget r0 vec get {i}"])
+                        groups.append([f"ptr r0 vec const add:{i} as_ref"] if False else [f"tget r0 slice index {i}"])
+                    for g in (["view r0 shared as_slice first"], ["view r0 shared as_slice last"], ["view r0 mut as_mut_slice split_first:rest"], ["view r0 mut as_mut_slice split_last:elem"],
+                              ["iter r0 vec.iter " + "F" * (n + 2) + "LH"], ["iter r0 slice.for_ref " + "B" * (n + 2) + "LH"], ["itermut r0 vec.iter_mut " + "FB" * (n + 1)],
+                              ["push r0 28"], ["pop r0", "pop r0"], ["clear r0"], ["retain r0 keep=" + "10" * n], ["retain_mut r0 keep=" + "01" * n],
+                              ["sort r0 sort_by_key mod=3"], ["sort r0 sort"], [f"apply_index r0 vec {tl(list(reversed(range(n))))}"], ["extend r0 20,21"],
+                              [setup(2, "r1", 10), "append r0 r1"], [setup(2, "r1", 10), "append r1 r0"], ["tget r0 vec last"], ["tget r0 slicemut first_mut"],
+                              ["drop r0"], ["unwind_drop r0"], ["bounds r0 vec shared unb unb"], [f"bounds r0 slicemut mut inc:0 exc:{n}"]):
+                        groups.append(g)
+                    if cl:
+                        groups += [["to_vec r0 r1"], [f"resize r0 {n + 2} 24"], [f"resize r0 0 24"], [setup(2, "r1", 10), "extend_from_slice r1 r0"], [setup(2, "r1", 10), "extend_refs r1 r0"], [f"refs r0 to_owned {max(n - 1, 0)}"]]
+                    for g in groups:
+                        out.append(Scenario(sh, base + g, "desync"))
+    return out
